@@ -1,7 +1,7 @@
 """C17 (partial): R-IDX, R-CAP, R-EOF, R-REC, R-DIV, R-NULL, T-TBL, T-DISP over everything reachable from naken_util."""
 from nk import report
 from nk.interval import Analyzer
-from rules import strs, prog as rprog, wrap, idx, term, div, tbl, null, disp, lane, fileloop
+from rules import strs, prog as rprog, wrap, idx, term, div, tbl, null, disp, lane, fileloop, nulstep
 from . import common
 
 EXPLANATION = (
@@ -10,7 +10,7 @@ EXPLANATION = (
     'disassembler and simulator entry: R-IDX (fixed-array subscripts), R-CAP, R-EOF (reader loops leave at end of '
     'input), R-REC, R-DIV, R-NULL, T-TBL (table sentinels), T-DISP (every accepted command / detected file type is '
     'dispatched). R-PROG: every range loop of the range printers and the page walk of UtilContext::disasm advance on every path. '
-    'WRAP-LOOP: a 32-bit address counter compared with an inclusive upper bound cannot wrap (the 56 range printers are known findings). R-STR: as in C16, over the disassemblers and file readers (about 200 of 600 copies are proven, the rest not decided). Not decided: file-supplied counts and offsets used as pointer offsets into the file image '
+    'WRAP-LOOP: a 32-bit address counter compared with an inclusive upper bound cannot wrap (the 56 range printers are known findings). R-STR: as in C16, over the disassemblers and file readers (about 200 of 600 copies are proven, the rest not decided). NUL-STEP: on the edge on which a scanner finds the terminator of the string it scans, no increment of its cursor is reached before the character is tested again (a step over the terminator makes stale bytes of an earlier line part of the input). Not decided: file-supplied counts and offsets used as pointer offsets into the file image '
     '(R-TAINT not armed), heap use. R-WRAP: the page-membership tests of the image (which every loader writes through) are computed in 64 bits, so a store at 0xffff0000 and above finds its page instead of appending pages until memory runs out. FILE-LOOP: every loop of a file reader whose trip count is a 32/64-bit value taken from the file is preceded by a relational test of that value with an arm that leaves, or leaves at end of file itself.')
 
 
@@ -22,14 +22,18 @@ def run(tier, t0):
 
     def scope(fn):
         return fn.key in reach and fn.file.startswith(('fileio/', 'core/', 'main/naken_util', 'common/', 'disasm/', 'table/'))
+    def scope_idx(fn):
+        # the register/memory commands of naken_util end in the simulators' set_reg/get_reg/dump code
+        return scope(fn) or (fn.key in reach and fn.file.startswith('simulate/'))
     dctx = div.Ctx(prog, an)
-    results = [idx.idx(prog, scope, 150, an), idx.cap_callers(prog, scope, 5, cg), term.eof(prog, scope, 20),
+    results = [idx.idx(prog, scope_idx, 150, an), idx.cap_callers(prog, scope, 5, cg), term.eof(prog, scope, 20),
                term.rec(prog, cg, [common.UTIL_MAIN], member_scope=lambda f: f.file.startswith(('fileio/', 'common/', 'disasm/', 'main/naken_util')) or f.file in ('core/UtilContext.cpp', 'core/Linker.cpp', 'core/imports_obj.cpp', 'core/imports_ar.cpp')), div.div(prog, scope, 40, ctx=dctx), null.null_a(prog, scope, 20),
                tbl.ttbl(prog), disp.disp(prog), idx.ptr_into_array(prog, scope, an),
                rprog.run(prog, cg),
                strs.strs(prog, cg, scope, 100), strs.str_loops(prog, scope, an, 20),
-               wrap.wrap_loops(prog, lambda f: f.file.startswith(('disasm/', 'core/UtilContext', 'main/naken_util', 'fileio/')), an, 40, strict_fns=common.range_printers()),
-               lane.wrap_pages(prog, 2), fileloop.file_loops(prog), term.getc_char(prog, lambda f: f.file.startswith(('core/', 'fileio/')))]
+               wrap.wrap_loops(prog, lambda f: f.file.startswith(('disasm/', 'core/UtilContext', 'main/naken_util', 'fileio/')), an, 40, strict_fns=set(common.range_printers()) | {f.q for f in prog.functions(lambda f: f.file == 'core/UtilContext.cpp')}),
+               lane.wrap_pages(prog, 2), fileloop.file_loops(prog), term.getc_char(prog, lambda f: f.file.startswith(('core/', 'fileio/'))),
+               nulstep.nul_step(prog, lambda f: f.file in ('core/UtilContext.cpp', 'main/naken_util.cpp') or f.file.startswith('common/'), 15)]
     return report.finish('C17', tier, results, EXPLANATION,
                          ['the invariants listed for not-decided subscripts were read from the code and replayed under ASan '
                           'during triage'], common.TRUSTED, t0)
